@@ -1,3 +1,5 @@
 import Audit.Tool
 import Adb.Props.C04
+import Adb.Props.ParseFlags
 #audit_module Adb.Props.C04
+#audit_module Adb.Props.ParseFlags
